@@ -630,8 +630,46 @@ def _is_var(f, operand, var):
     return False
 
 
+_PURE_WRAPPERS = ("std::result::Result::as_ref", "std::result::Result::unwrap_or", "std::option::Option::unwrap_or", "std::result::Result::unwrap_or_default", "std::cmp::max", "std::cmp::min",
+                  "std::cmp::Ord::max", "std::cmp::Ord::min", "std::ops::Deref::deref", "std::result::Result::ok", "std::result::Result::map", "std::convert::From::from",
+                  "std::convert::Into::into", "std::convert::TryFrom::try_from", "std::convert::TryInto::try_into", "std::result::Result::unwrap", "std::option::Option::unwrap",
+                  "std::result::Result::copied", "std::option::Option::copied", "std::ops::Try::branch")
+
+
+def depends_on_calls(g, operand, limit=400):
+    """(callee name, block) of every call the value may be computed from: follows copies, arithmetic, aggregates and the pure wrappers above"""
+    out = set()
+    seen = set()
+    work = [operand["pl"]["l"]] if op_place(operand) is not None else []
+    defs = g.defs()
+    while work and len(seen) < limit:
+        l = work.pop()
+        if l in seen:
+            continue
+        seen.add(l)
+        for (b, si, node) in defs.get(l, []):
+            if g.is_cleanup(b):
+                continue
+            if si is None:
+                nm = strip_generics(callee_name(node))
+                out.add((nm, b))
+                if nm in _PURE_WRAPPERS or strip_generics(node.get("callee") or "") in _PURE_WRAPPERS:
+                    for a in node["args"]:
+                        if op_place(a) is not None:
+                            work.append(a["pl"]["l"])
+                continue
+            rv = node["rv"]
+            for a in rv.get("a", []):
+                if op_place(a) is not None:
+                    work.append(a["pl"]["l"])
+            if "pl" in rv:
+                work.append(rv["pl"]["l"])
+    return out
+
+
 def rule_reasm_contig(ctx, cfg, F):
-    R = ctx.rule("REASM-CONTIG", "each follow-up read writes at buffer[W..] with W = len(buffer) read at the top of the iteration, for end - W bytes with the same W")
+    R = ctx.rule("REASM-CONTIG", "each follow-up read writes at buffer[W..] with W = len(buffer) read at the top of the iteration, for at most (new length - W) bytes of that same slice; "
+                 "afterwards the buffer's length is set to W + the bytes received (set_len or truncate) before the next read or return")
     g = next((x for x in F.fns.values() if any(strip_generics(callee_name(t)) == "libc::recv" for _, t in x.calls())), None)
     if not g:
         R.violate("anchor-missing:reassembly", "no function calls libc::recv", config=cfg)
@@ -647,26 +685,110 @@ def rule_reasm_contig(ctx, cfg, F):
         if pe[0] == "call" and pe[1].endswith("index_mut") and pe[2][1][0] == "agg" and pe[2][1][1].endswith("RangeFrom::RangeFrom"):
             W = pe[2][1][2][0]
             buf = pe[2][0]
-            if le[0] == "bin" and le[1] == "Sub" and le[3] == W and W[0] == "call" and W[1] == "std::vec::Vec::len" and W[2][0] == buf:
+            w_is_len = W[0] == "call" and W[1] == "std::vec::Vec::len" and W[2][0] == buf
+            if le[0] == "bin" and le[1] == "Sub" and le[3] == W and w_is_len:
                 ok = True
+            elif w_is_len and ((le[0] == "call" and le[1] in ("core::slice::len",) and le[2][0] == pe) or (le[0] == "un" and le[1] in ("PtrMetadata", "len") and le[2] == pe)):
+                ok = True       # the length of the very slice buffer[W..] the pointer was taken from
             else:
-                why = "length %s does not subtract the write position %s" % (expr_str(le), expr_str(W))
+                why = "length %s is neither (end - W) nor the length of buffer[W..] with W = %s" % (expr_str(le)[:80], expr_str(W))
         else:
             why = "pointer is %s" % expr_str(pe)[:80]
-        # after the read the length must become W + max(result, 0) before the next read / return
+        # after the read the length must become W + (bytes received) before the next read / return
         adv = False
-        for b2, t2 in g.calls_to("std::vec::Vec::set_len"):
-            e2 = expr_strip_blocks(ex.of_operand(t2["args"][1]))
-            if b2 in g.reachable(t["to"]) and e2[0] == "bin" and e2[1] == "Add" and "libc::recv" in repr(e2) and g.all_paths_pass(t["to"], [b2])[0]:
-                adv = True
+        for nm_ in ("std::vec::Vec::set_len", "std::vec::Vec::truncate"):
+            for b2, t2 in g.calls_to(nm_):
+                if b2 not in g.reachable(t["to"]) or not g.all_paths_pass(t["to"], [b2])[0]:
+                    continue
+                e2 = expr_strip_blocks(ex.of_operand(t2["args"][1]))
+                deps = depends_on_calls(g, t2["args"][1])
+                is_sum = (e2[0] == "bin" and e2[1] in ("Add", "AddUnchecked")) or (e2[0] == "field" and e2[1][0] == "bin" and e2[1][1] == "AddWithOverflow")
+                if is_sum and ("libc::recv", b) in deps and any(d[0] == "std::vec::Vec::len" for d in deps):
+                    adv = True
         if ok and not adv:
             ok = False
-            why = "no set_len(W + max(result, 0)) follows the read on every path: the buffer's length does not track the bytes actually received"
+            why = "no set_len/truncate(W + bytes received) follows the read on every path: the buffer's length does not track the bytes actually received"
         if ok:
             R.ok("follow-up read: ptr = buffer[W..], len = end - W, W = len(buffer); length advanced by the bytes received", g.loc(b), cfg)
         else:
             R.violate("%s:write-window" % g.path, "the follow-up read's destination window is not buffer[W..W+(end-W)] with W = len(buffer): %s" % why, g.path, g.loc(b), config=cfg)
     R.count("followup_reads[%s]" % cfg, n)
+
+
+
+# --------------------------------------------------------------------------- RECV-CAP-CONST
+_IMPURE_PREFIX = ("std::sync::atomic::", "core::sync::atomic::", "std::cell::Cell::", "std::cell::RefCell::", "std::thread::LocalKey::", "libc::", "std::env::", "std::time::",
+                  "std::sync::Mutex::", "std::sync::RwLock::", "std::fs::", "std::io::")
+
+
+def _is_lazy_deref(F, name):
+    """`<STATIC as Deref>::deref` of a lazy_static: initialised once, a process constant afterwards"""
+    g = F.fns.get(name) or getattr(F, "all_fns", {}).get(name)
+    if g is None or g.impl_trait != "std::ops::Deref":
+        return False
+    seen, work = set(), [g]
+    while work:
+        x = work.pop()
+        if x.path in seen:
+            continue
+        seen.add(x.path)
+        for b, t in x.calls():
+            nm = strip_generics(callee_name(t))
+            if nm.startswith("lazy_static::lazy::Lazy::get") or nm.endswith("Once::call_once") or nm.endswith("OnceLock::get_or_init") or nm.endswith("LazyLock::force"):
+                return True
+            y = F.fns.get(callee_name(t)) or getattr(F, "all_fns", {}).get(callee_name(t))
+            if y is not None and y.path.startswith(g.path):
+                work.append(y)
+    return False
+
+
+def impure_reads(F, g, operand, depth=0, seen=None):
+    """mutable-state reads the value of `operand` may depend on: [(function, callee, block)]; follows crate-local callees (whole bodies) but not lazy statics"""
+    seen = seen if seen is not None else set()
+    out = []
+    for nm, b in sorted(depends_on_calls(g, operand)):
+        out += _impure_call(F, g, nm, b, depth, seen)
+    return out
+
+
+def _impure_call(F, g, nm, b, depth, seen):
+    t = g.term(b)
+    full = callee_name(t)
+    if any(nm.startswith(p) for p in _IMPURE_PREFIX):
+        return [(g.path, nm, b)]
+    if _is_lazy_deref(F, full):
+        return []
+    h = F.fns.get(full) or getattr(F, "all_fns", {}).get(full)
+    if h is None or h.path in seen or depth > 6:
+        return []
+    seen.add(h.path)
+    out = []
+    for b2, t2 in h.calls():
+        out += _impure_call(F, h, strip_generics(callee_name(t2)), b2, depth + 1, seen)
+    return out
+
+
+def rule_recv_cap_const(ctx, cfg, F):
+    R = ctx.rule("RECV-CAP-CONST", "the receiver's first-packet buffer capacity is a process constant: it is computed only from constants and once-initialised statics, never from "
+                 "state that can change between the moment a packet is put on the wire and the moment it is read (atomics, cells, thread-locals, fresh system calls). A capacity that can "
+                 "shrink truncates first packets already queued at the older, larger size")
+    g = next((x for x in F.fns.values() if any(strip_generics(callee_name(t)) == "libc::recv" for _, t in x.calls())), None)
+    if not g:
+        R.violate("anchor-missing:reassembly", "no function calls libc::recv", config=cfg)
+        return
+    n = 0
+    for b, t in g.calls_to("std::vec::Vec::with_capacity"):
+        if "u8" not in t.get("generics", []):
+            continue
+        n += 1
+        bad = impure_reads(F, g, t["args"][0])
+        if bad:
+            fn_, nm, bb = bad[0]
+            R.violate("%s:capacity-depends-on-mutable-state:%s" % (g.path, nm.split("::")[-1]),
+                      "the first-packet buffer capacity depends on %s (read in %s): it can differ from the size the sender used when the packet was queued" % (nm, fn_), g.path, g.loc(b), config=cfg)
+        else:
+            R.ok("first-packet buffer capacity is computed from process constants only", g.loc(b), cfg)
+    R.count("capacity_sites[%s]" % cfg, n)
 
 
 # =========================================================================== C05
@@ -1234,6 +1356,12 @@ def rule_size_agree(ctx, cfg, F):
     for b, t in g.calls_to("libc::recv"):
         e = expr_strip_blocks(exg.of_operand(t["args"][2]))
         r_fn = _find_call(e, lambda n: n.startswith("platform::") and n.endswith("::fragment_size"))
+        if r_fn is None:
+            # the window is the slice buffer[W..] whose end was fixed by the set_len that precedes the read in the same iteration
+            for b2, t2 in g.calls_to("std::vec::Vec::set_len"):
+                if g.dominates(b2, b) and _in_loop(g, b2):
+                    e2 = expr_strip_blocks(exg.of_operand(t2["args"][1]))
+                    r_fn = r_fn or _find_call(e2, lambda n: n.startswith("platform::") and n.endswith("::fragment_size"))
     if s_fn and r_fn and s_fn[1] == r_fn[1]:
         rarg = r_fn[2][0] if r_fn[2] else None
         sys_ok = rarg is not None and "static" in repr(rarg)
